@@ -29,6 +29,7 @@ import sys
 import time
 from concurrent.futures import ThreadPoolExecutor
 
+sys.dont_write_bytecode = True
 sys.path.insert(0, os.path.dirname(os.path.abspath(__file__)))
 import rxparse  # noqa: E402
 
